@@ -46,10 +46,13 @@ SPEC = {
     "custom": custom,
     "nontrivial": nontrivial,
     "rule": "accepted programs: generated shader files (up to 10 resources, 6 helpers with call graphs, 5 static globals threaded on "
-            "Metal, 3 pipelines) x 4 targets, name-clash programs, plus the repository's own inputs under tests/ x {dx, msl}, each "
-            "compiled 5 times in one process and once in each of 3 fresh processes; rejected programs: 97 generated families "
-            "with >= 3 interchangeable offenders each (lexer, preprocessor, parser, 93 of 105 TyperError variants incl. enum "
-            "range / conflicts, overload ambiguity with candidate lists, redefinitions; layout check; pipeline errors; exporter "
+            "Metal, 3 pipelines) x 4 targets, name-clash programs, programs whose functions share their name with a struct / enum / "
+            "cbuffer of the same scope (accepted since fix 31dddea) x 4 targets, buffer addresses in 2-4 bind groups with tied inline "
+            "descriptor slots x {vk, vkba}, plus the repository's own inputs under tests/ x {dx, msl}, each "
+            "compiled 5 times in one process and once in each of 3 fresh processes; rejected programs: 113 generated families "
+            "with >= 3 interchangeable offenders each (lexer, preprocessor, parser, 99 of 109 TyperError variants incl. enum "
+            "range / conflicts, overload ambiguity with candidate lists, redefinitions, and every rejection introduced by fix batch 2; "
+            "layout check; pipeline errors; exporter "
             "errors on every target) and the 504 rejected inputs of the repository's typer tests, each compiled 8 times in one "
             "process and once in each of 3 fresh processes; all digests (sources, stages, metadata, state, fully rendered "
             "diagnostics) must be equal; non-trivial = the compilation succeeded (accepted streams) / was rejected (diagnostics streams)",
